@@ -32,6 +32,20 @@ def r11_1(ctx):
         rows, lp = fold_semantics(f)
         r.ob("sort:present", len(sorts) == 1, f.site, "%d sort() calls on the routes parameter" % len(sorts))
         r.ob("sort:dominates-fold", bool(sorts) and lp is not None and all(f.dominates(bi, lp.next_block) and bi != lp.next_block for bi, _ in sorts), f.site, "routes.sort() dominates the fold loop")
+        # nothing reads or reshapes the matched routes before they are sorted: whatever looks at the list earlier
+        # (a `find`, a `retain`, `first()` ...) sees the order the caller happened to hand them over in
+        early = []
+        for b in f.all_bodies()[:1]:
+            for bi, t, cal in b.calls():
+                if cal is None or (bi, t) in sorts:
+                    continue
+                if cal.name in ("deref", "deref_mut", "as_slice", "as_mut_slice", "as_ref", "as_mut", "borrow", "borrow_mut", "len", "is_empty", "capacity"):
+                    continue  # a view of the vector (what is done with it is looked at where it happens) or an order-free question
+                if any(f.dominates(sb, bi) for sb, _ in sorts):
+                    continue
+                if any(pv.operand(a) == ("param", 1) or mentions(pv.operand(a), lambda y: y == ("param", 1)) for a in t["args"]):
+                    early.append("%s (%s)" % (cal.name, f.loc(span_line(t["s"]))))
+        r.ob("sort:first-look-at-the-routes", bool(sorts) and not early, f.site, "routes.sort() is the first thing done with the matched routes" if not early else "the unsorted route list is handed to %s before the sort" % ", ".join(early[:3]))
         if lp is not None:
             r.ob("sort:fold-iterates-sorted-vector", lp.source == ("param", 1), f.loc(lp.line), "the fold iterates the sorted vector itself (%s)" % show(lp.source, f))
         # sort() uses the natural order (Ord of Arc<Route<Rule>>), not a custom comparator
